@@ -14,8 +14,29 @@ DIAG = re.compile(r"[Ee]rror")
 PHASE_FIELDS = ("e", "p", "errors", "ok")
 TIME_LIMIT = 20
 
+# crashes of the compiler that are genuine, recorded defects of /repo (known_findings.json), by exact stderr signature;
+# evalcore.KNOWN_CRASHES holds the ones shared with the evaluation properties
+OWN_KNOWN = {"mutual-aggregate-cyclic-dependency-fatal":
+             lambda err: "\ncyclic dependency\n" in ("\n" + err) and "fatal error; see std err" in err}
+
+def known_crash(res, pid, err):
+    """True when stderr carries the signature of a recorded compiler crash (reported as KNOWN-FINDING when listed for pid)."""
+    from . import evalcore, known
+    if evalcore.known_crash(res, pid, err):
+        return True
+    for fid, sig in OWN_KNOWN.items():
+        if sig(err or ""):
+            kf = known.load()
+            if known.is_listed(kf, pid, fid):
+                msg = known.describe(kf, pid, fid)
+                if msg not in res.known:
+                    res.known.append(msg)
+                res.count("known_finding_hits")
+                return True
+    return False
+
 class Run:
-    __slots__ = ("label", "dir", "rc", "stdout", "stderr", "events", "outs", "secs", "parsed_errors", "raw_events")
+    __slots__ = ("label", "dir", "rc", "stdout", "stderr", "events", "outs", "secs", "parsed_errors", "raw_events", "retried")
 
 def read_trace(path):
     evs = []
@@ -56,25 +77,39 @@ def exit_event(rc, stderr, outs, expect="any"):
     return {"e": "Exit", "code": rc if 0 <= rc < 128 else -1, "signal": sig, "timeout": timeout,
             "diag": bool(DIAG.search(stderr)), "internal": bool(INTERNAL.search(stderr)), "outs": len(outs), "expect": expect}
 
-def run_souffle(label, d, text=None, dl=None, args=(), facts=None, timeout=TIME_LIMIT, souffle=None):
-    """One invocation in its own directory d (program d/p.dl unless dl is given, outputs d/out, trace d/trace.ndjson)."""
+def run_souffle(label, d, text=None, dl=None, args=(), facts=None, timeout=TIME_LIMIT, souffle=None, expect="any"):
+    """One invocation in its own directory d (program d/p.dl unless dl is given, outputs d/out, trace d/trace.ndjson).
+    Time limit: `timeout` seconds of CPU time (ulimit -t, inherited by the preprocessor) and of wall-clock time; a run that
+    exceeds the wall-clock limit only is repeated once with a generous wall-clock limit (the machine may be loaded),
+    so that only a run that burns its CPU budget or blocks for a long time counts as a hang."""
     os.makedirs(os.path.join(d, "out"), exist_ok=True)
     if dl is None:
         dl = os.path.join(d, "p.dl")
         with open(dl, "wb") as f:
             f.write(text if isinstance(text, bytes) else text.encode("utf-8", "surrogateescape"))
     tr = os.path.join(d, "trace.ndjson")
-    if os.path.exists(tr):
-        os.remove(tr)
-    cmd = [souffle or build.SOUFFLE, "-D", os.path.join(d, "out")] + (["-F", facts] if facts else []) + list(args) + [dl]
-    t0 = time.time()
-    rc, out, err = run(cmd, timeout=timeout, env={"SOUFFLE_VERIF_TRACE": tr}, cwd=d)
+    cmd = ["/bin/sh", "-c", 'ulimit -t %d; exec "$@"' % timeout, "sh", souffle or build.SOUFFLE, "-D", os.path.join(d, "out")] \
+        + (["-F", facts] if facts else []) + list(args) + [dl]
+    retried = False
+    wall = timeout
+    while True:
+        if os.path.exists(tr):
+            os.remove(tr)
+        for f in os.listdir(os.path.join(d, "out")):
+            os.remove(os.path.join(d, "out", f))
+        t0 = time.time()
+        rc, out, err = run(cmd, timeout=wall, env={"SOUFFLE_VERIF_TRACE": tr}, cwd=d)
+        if rc == -999 and not retried and os.getloadavg()[0] > NCPU / 2:
+            retried = True; wall = 12 * timeout
+            continue
+        break
     r = Run(); r.label = label; r.dir = d; r.rc = rc; r.stdout = out; r.stderr = err; r.secs = time.time() - t0
+    r.retried = retried
     r.outs = sorted(os.listdir(os.path.join(d, "out")))
     raw = read_trace(tr)
     r.raw_events = len(raw)
     r.parsed_errors = next((e.get("errors") for e in raw if e.get("e") == "Phase" and e.get("p") == "Parsed"), None)
-    r.events = project(raw) + [exit_event(rc, err, r.outs)]
+    r.events = project(raw) + [exit_event(rc, err, r.outs, expect)]
     return r
 
 def run_many(jobs, workers=None):
@@ -175,7 +210,7 @@ def check_spec(wd, res):
             res.cov["driver_spec_states_" + n] = r["distinct"]
             if n == "DriverSafety":
                 cov = tlc.coverage_counts(r["out"])
-                never = sorted(a for a, (taken, _) in cov.items() if taken == 0 and a not in ("Init",))
+                never = sorted(a for a, (taken, _) in cov.items() if taken == 0 and a not in ("Init", "Stmt"))     # Stmt leaves the state unchanged
                 if never:
                     res.infra_errors.append("Driver.tla: actions never taken (vacuity): %s" % never)
     return okall
